@@ -70,11 +70,12 @@ def tlc(ctx, module, cfg, workers=None, env=None, timeout=900, extra=(), deque=F
     md = os.path.join(ctx.scratch, "md%d" % ctx.nmd)
     if workers is None:
         workers = min(16, os.cpu_count() or 4)
-    cmd = ["timeout", str(timeout), "tlc", "-workers", str(workers), "-metadir", md,
+    cmd = ["timeout", "-k", "10", str(timeout), "tlc", "-workers", str(workers), "-metadir", md,
            "-config", cfg, module + ".tla"] + list(extra)
     e = dict(os.environ)
     if env:
         e.update(env)
+    e["JAVA_TOOL_OPTIONS"] = (e.get("JAVA_TOOL_OPTIONS", "") + " -Xss512m").strip()
     if deque:
         e["JAVA_TOOL_OPTIONS"] = (e.get("JAVA_TOOL_OPTIONS", "") + " -Dtlc2.tool.queue.IStateQueue=StateDeque").strip()
     t = time.time()
@@ -97,7 +98,7 @@ def tlc(ctx, module, cfg, workers=None, env=None, timeout=900, extra=(), deque=F
     r.hwm = max(int(x) for x in m) if m else None
     r.parse_error = ("Parsing or semantic analysis failed" in p.stdout) or ("*** Errors:" in p.stdout)
     r.timeout = (p.returncode == 124)
-    ctx.tlc_cmds.append("%s (%s, exit %d, %d generated / %d distinct, %.1fs)" % (" ".join(cmd[2:]), cfg, r.exit, r.generated, r.distinct, r.wall))
+    ctx.tlc_cmds.append("%s (%s, exit %d, %d generated / %d distinct, %.1fs)" % (" ".join(cmd[4:]), cfg, r.exit, r.generated, r.distinct, r.wall))
     ctx.states += r.distinct
     ctx.transitions += r.generated
     if not quiet:
